@@ -283,6 +283,7 @@ def run(repo: Repo, chk: Check, thorough: bool = False) -> None:
            'NotImplementedError handled' if ok else 'get_toc calls to_node() without handling NotImplementedError', gt.loc)
 
     check_r08_11(repo, chk)
+    check_r08_7_field_bodies(repo, chk)
     # ---------------------------------------------------------------- R08.6
     # "the problem is reported against that object": a de-duplication of reports (the same docstring is parsed and rendered several times) may drop a
     # problem that WAS reported, never a different problem of an object that has one report already - a renderer failure after a parser warning.
@@ -395,3 +396,29 @@ def check_r08_11(repo: Repo, chk: Check) -> None:
     if n < 1:
         raise AnalysisError('R08.11: no memoising to_node() that stores its document before converting was found (1 confirmed: ParsedEpytextDocstring.to_node)')
     chk.require('R08.11', 1)
+
+
+def check_r08_7_field_bodies(repo: Repo, chk: Check) -> None:
+    # format_docstring_fallback re-parses `ctx.docstring` as plain text.  That is the text the failed parse came from only when the object has a
+    # docstring of its own: for a property documented by `@return:` alone the builder blanks attr.docstring, for an attribute documented by an `@ivar`
+    # field the source is the PARENT - the fallback then shows nothing, or the whole class docstring.  Where the parsed docstring is a field body, the
+    # fallback has to be the one that recovers the text from the parsed body itself
+    fd = repo.func('pydoctor.epydoc2stan._format_docstring')
+    calls = [c for c in calls_in(fd) if call_name(c) == 'safe_to_stan']
+    if not calls:
+        raise AnalysisError('R08.7: _format_docstring no longer renders through safe_to_stan')
+    cfg = CFG(fd)
+    for c in calls:
+        fb = next((k.value for k in c.keywords if k.arg == 'fallback'), None)
+        direct = isinstance(fb, ast.Name) and fb.id == 'format_docstring_fallback'
+        # either the fallback is chosen by a test of the object's own docstring, or the call with the re-reading fallback is dominated by such a test
+        chosen = isinstance(fb, ast.Name) and fb.id != 'format_docstring_fallback' and any(
+            isinstance(a, ast.Assign) and any(isinstance(t, ast.Name) and t.id == fb.id for t in a.targets) for a in fd.walk()) and any(
+            isinstance(i, ast.If) and any(isinstance(a, ast.Assign) and any(isinstance(t, ast.Name) and t.id == fb.id for t in a.targets) for st in i.body + i.orelse for a in ast.walk(st)) and
+            any(isinstance(x, (ast.Attribute, ast.Call)) and ('docstring' in norm(x)) for x in ast.walk(i.test)) for i in fd.walk())
+        guarded = direct and any('docstring' in norm(t) and 'parsed' not in norm(t) for t, _pol in cfg.dominating_tests(cfg.stmt_of(c)))
+        ok = chosen or guarded or (isinstance(fb, ast.Name) and not direct and not isinstance(fb, ast.Lambda) and fb.id == '_field_body_fallback')
+        chk.ob('R08.7', 'pydoctor.epydoc2stan._format_docstring :: the re-reading fallback is only used for an object that has a docstring of its own', ok,
+               'the fallback depends on whether the object has its own docstring text' if ok else
+               'format_docstring_fallback is used for every object: a property documented only by `@return: ... \\x0c ...` gets `<p class="pre"></p>` (its text is lost), an '
+               'attribute documented by `@ivar x:` gets the whole docstring of its class', repo.loc(fd.mod, c))
